@@ -13,7 +13,8 @@
 
     Lock sites (file:line of /repo/src) are listed in docs/C08.md. *)
 From IndModel Require Export Base.
-From Coq Require Import Arith String.
+From Coq Require Import Arith.
+From Coq Require String.
 Local Open Scope nat_scope.
 
 (* ------------------------------------------------------------------ Part 1 *)
@@ -253,6 +254,182 @@ Fixpoint cnest_from (h : list cres) (p : list caction) : list (cres * cres) :=
   end.
 
 (** update() before fix 68f1e2d (git show 68f1e2d^:src/progress_bar.rs:276-279):
-    `self.state().update(now, f, self.ticker.lock().unwrap().is_none())` - receiver first. *)
+    `self.state().update(now, f, self.ticker.lock().unwrap().is_none())` - the receiver is
+    evaluated before the argument, both temporaries live to the end of the statement. *)
 Definition old_update_fp : list caction :=
-  [CAcq CBar; CAcq CSlot; CRel CSlot; CCallback; CTick; CAcq CMulti; CRel CMulti; CRel CBar].
+  [CAcq CBar; CAcq CSlot; CCallback; CTick; CAcq CMulti; CRel CMulti; CRel CSlot; CRel CBar].
+
+(* ------------------------------------------------------------------ Part 3 *)
+
+(** TickerControl::run (src/progress_bar.rs:722-755), one control point per blocking or
+    shared-state operation. *)
+Inductive tpc :=
+| TUpgrade         (* :726 self.state.upgrade() *)
+| TLockBar         (* :727 arc.lock() *)
+| TCheckFin        (* :728 state.state.is_finished() *)
+| TFinUnlock       (* :729 break: the guard `state` is dropped ... *)
+| TFinDrop         (*           ... then `arc` *)
+| TTick            (* :732 state.tick(now)  (BarState::tick, state.rs:143: tick+1, draw) *)
+| TUnlockBar       (* :734 drop(state) *)
+| TDropArc         (* :735 drop(arc)   (BarState::drop runs here if it was the last Arc) *)
+| TLockStop        (* :741 self.stopping.0.lock() *)
+| TCheckStop       (* wait_timeout_while loop head: predicate !*stopped, then the deadline *)
+| TSleep           (* inside Condvar::wait_timeout: Stop released atomically, thread parked *)
+| TRelock          (* woken (notify / time-out / spurious): re-acquire Stop *)
+| TUnlockStopExit  (* :747-748 not timed out => break; `result` (the guard) dropped *)
+| TUnlockStopLoop  (* timed out: end of the loop body, `result` dropped, next iteration *)
+| TDone.
+
+Inductive lockst := Free | ByTicker | ByEnv.
+
+Record tsys := {
+  pc : tpc;
+  flag : bool;      (* *stopping.0 *)
+  owed : bool;      (* ghost: flag set by a stop() that has not yet executed its notify_one() *)
+  fin : bool;       (* state.state.is_finished() *)
+  strong : nat;     (* ProgressBar handles alive (strong count of `state` without the ticker's) *)
+  tarc : bool;      (* the ticker thread holds an upgraded Arc *)
+  barl : lockst;    (* bar state mutex *)
+  stopl : lockst;   (* stop mutex *)
+  nticks : nat;     (* ghost: BarState::tick calls made by the ticker thread *)
+  iters : nat       (* ghost: loop iterations begun (upgrade attempts) *)
+}.
+
+Inductive label :=
+| LT (timed_out : bool)   (* one step of the ticker thread; the argument is the time-out oracle's
+                             answer, read only at TCheckStop (deadline passed?) *)
+| LWake                   (* time-out or spurious wake-up of the parked thread *)
+| LNotify                 (* Ticker::stop :712 notify_one() *)
+| LLockStop | LSetStop | LUnlockStop     (* Ticker::stop :711 *)
+| LLockBar | LUnlockBar                  (* any user call holding the bar state *)
+| LFinish | LReset                       (* under the bar state lock *)
+| LClone | LDropHandle.
+
+Definition upd_pc (s : tsys) (p : tpc) : tsys :=
+  {| pc := p; flag := flag s; owed := owed s; fin := fin s; strong := strong s; tarc := tarc s;
+     barl := barl s; stopl := stopl s; nticks := nticks s; iters := iters s |}.
+
+Definition is_free_l (l : lockst) : bool := match l with Free => true | _ => false end.
+Definition is_env_l (l : lockst) : bool := match l with ByEnv => true | _ => false end.
+
+Definition tstep (o : bool) (s : tsys) : option tsys :=
+  let mk p tarc' barl' stopl' nt it :=
+    Some {| pc := p; flag := flag s; owed := owed s; fin := fin s; strong := strong s; tarc := tarc';
+            barl := barl'; stopl := stopl'; nticks := nt; iters := it |} in
+  match pc s with
+  | TUpgrade => if Nat.eqb (strong s) 0
+                then mk TDone false (barl s) (stopl s) (nticks s) (S (iters s))
+                else mk TLockBar true (barl s) (stopl s) (nticks s) (S (iters s))
+  | TLockBar => if is_free_l (barl s) then mk TCheckFin (tarc s) ByTicker (stopl s) (nticks s) (iters s) else None
+  | TCheckFin => Some (upd_pc s (if fin s then TFinUnlock else TTick))
+  | TFinUnlock => mk TFinDrop (tarc s) Free (stopl s) (nticks s) (iters s)
+  | TFinDrop => mk TDone false (barl s) (stopl s) (nticks s) (iters s)
+  | TTick => mk TUnlockBar (tarc s) (barl s) (stopl s) (S (nticks s)) (iters s)
+  | TUnlockBar => mk TDropArc (tarc s) Free (stopl s) (nticks s) (iters s)
+  | TDropArc => mk TLockStop false (barl s) (stopl s) (nticks s) (iters s)
+  | TLockStop => if is_free_l (stopl s) then mk TCheckStop (tarc s) (barl s) ByTicker (nticks s) (iters s) else None
+  | TCheckStop =>
+      if flag s then Some (upd_pc s TUnlockStopExit)
+      else if o then Some (upd_pc s TUnlockStopLoop)
+      else mk TSleep (tarc s) (barl s) Free (nticks s) (iters s)
+  | TSleep => None
+  | TRelock => if is_free_l (stopl s) then mk TCheckStop (tarc s) (barl s) ByTicker (nticks s) (iters s) else None
+  | TUnlockStopExit => mk TDone (tarc s) (barl s) Free (nticks s) (iters s)
+  | TUnlockStopLoop => mk TUpgrade (tarc s) (barl s) Free (nticks s) (iters s)
+  | TDone => None
+  end.
+
+Definition lstep (l : label) (s : tsys) : option tsys :=
+  let mk fl ow fi st bl sl :=
+    Some {| pc := pc s; flag := fl; owed := ow; fin := fi; strong := st; tarc := tarc s;
+            barl := bl; stopl := sl; nticks := nticks s; iters := iters s |} in
+  match l with
+  | LT o => tstep o s
+  | LWake => match pc s with TSleep => Some (upd_pc s TRelock) | _ => None end
+  | LNotify =>
+      let s' := {| pc := match pc s with TSleep => TRelock | p => p end;
+                   flag := flag s; owed := false; fin := fin s; strong := strong s; tarc := tarc s;
+                   barl := barl s; stopl := stopl s; nticks := nticks s; iters := iters s |} in
+      Some s'
+  | LLockStop => if is_free_l (stopl s) then mk (flag s) (owed s) (fin s) (strong s) (barl s) ByEnv else None
+  | LSetStop => if is_env_l (stopl s) then mk true true (fin s) (strong s) (barl s) (stopl s) else None
+  | LUnlockStop => if is_env_l (stopl s) then mk (flag s) (owed s) (fin s) (strong s) (barl s) Free else None
+  | LLockBar => if is_free_l (barl s) then mk (flag s) (owed s) (fin s) (strong s) ByEnv (stopl s) else None
+  | LUnlockBar => if is_env_l (barl s) then mk (flag s) (owed s) (fin s) (strong s) Free (stopl s) else None
+  | LFinish => if is_env_l (barl s) then mk (flag s) (owed s) true (strong s) (barl s) (stopl s) else None
+  | LReset => if is_env_l (barl s) then mk (flag s) (owed s) false (strong s) (barl s) (stopl s) else None
+  | LClone => if Nat.eqb (strong s) 0 then None else mk (flag s) (owed s) (fin s) (S (strong s)) (barl s) (stopl s)
+  | LDropHandle => match strong s with O => None | S n => mk (flag s) (owed s) (fin s) n (barl s) (stopl s) end
+  end.
+
+Fixpoint lrun (tr : list label) (s : tsys) : option tsys :=
+  match tr with
+  | [] => Some s
+  | l :: r => match lstep l s with Some s' => lrun r s' | None => None end
+  end.
+
+(** a freshly spawned ticker (Ticker::new, :690-708): flag false, Stop free; the bar state may
+    be finished or not and locked by a user or not, any number of handles *)
+Definition tinit (fi : bool) (st : nat) (bar_locked : bool) : tsys :=
+  {| pc := TUpgrade; flag := false; owed := false; fin := fi; strong := st; tarc := false;
+     barl := if bar_locked then ByEnv else Free; stopl := Free; nticks := 0; iters := 0 |}.
+Definition treach (s : tsys) : Prop :=
+  exists fi st bl tr, lrun tr (tinit fi st bl) = Some s.
+
+Definition is_LT (l : label) : bool := match l with LT _ => true | _ => false end.
+Definition count_LT (tr : list label) : nat := length (filter is_LT tr).
+Definition no_reset (tr : list label) : bool :=
+  forallb (fun l => match l with LReset => false | _ => true end) tr.
+
+(** upper bound on the ticker thread's own steps to TDone once the stop flag is set *)
+Definition fuel (p : tpc) : nat :=
+  match p with
+  | TUnlockStopLoop => 10 | TUpgrade => 9 | TLockBar => 8 | TCheckFin => 7 | TTick => 6
+  | TUnlockBar => 5 | TDropArc => 4 | TLockStop => 3 | TRelock => 3 | TSleep => 3
+  | TCheckStop => 2 | TFinUnlock => 2 | TFinDrop => 1 | TUnlockStopExit => 1 | TDone => 0
+  end.
+Definition exit_bound : nat := 10.
+(** may still tick / begin an iteration once the flag is set *)
+Definition tickfuel (p : tpc) : nat :=
+  match p with TUnlockStopLoop | TUpgrade | TLockBar | TCheckFin | TTick => 1 | _ => 0 end.
+Definition iterfuel (p : tpc) : nat :=
+  match p with TUnlockStopLoop | TUpgrade => 1 | _ => 0 end.
+(** may still tick once the bar is finished (only a tick that is already past the check) *)
+Definition tickfuel_fin (p : tpc) : nat := match p with TTick => 1 | _ => 0 end.
+
+(** the invariant of the automaton *)
+Definition tinv (s : tsys) : bool :=
+  (* no lost wake-up: a parked ticker with the flag set is still owed a notify *)
+  (match pc s with TSleep => implb (flag s) (owed s) | _ => true end) &&
+  (* who holds the bar state *)
+  (match pc s, barl s with
+   | (TCheckFin | TFinUnlock | TTick | TUnlockBar), ByTicker => true
+   | (TCheckFin | TFinUnlock | TTick | TUnlockBar), _ => false
+   | _, ByTicker => false
+   | _, _ => true
+   end) &&
+  (* who holds the stop mutex *)
+  (match pc s, stopl s with
+   | (TCheckStop | TUnlockStopExit | TUnlockStopLoop), ByTicker => true
+   | (TCheckStop | TUnlockStopExit | TUnlockStopLoop), _ => false
+   | _, ByTicker => false
+   | _, _ => true
+   end) &&
+  (* the upgraded Arc *)
+  (match pc s with
+   | TLockBar | TCheckFin | TFinUnlock | TFinDrop | TTick | TUnlockBar | TDropArc => tarc s
+   | _ => negb (tarc s)
+   end) &&
+  (* owed only after a SetStop *)
+  implb (owed s) (flag s).
+
+(** the ticker thread alone, [n] steps, time-out oracle [os]; a step that is not enabled is skipped *)
+Fixpoint run_ticker (os : nat -> bool) (n : nat) (s : tsys) : tsys :=
+  match n with
+  | O => s
+  | S n' => match tstep (os n') s with Some s' => run_ticker os n' s' | None => s end
+  end.
+
+(** ProgressBar::tick_inner (:225-230) + BarState::tick (state.rs:143-146) on the spinner tick *)
+Definition tick_inner (slot_is_none : bool) (tk : N) : N :=
+  if slot_is_none then sat_add64 tk 1 else tk.
